@@ -460,7 +460,8 @@ def run(ctx):
     from vt import explore as _ex
 
     cw = []
-    for cp, d in ((dict(base=65534), 6 if quick else 8), (dict(base=300, alphabet=["sub", "timer", "notify", "bcast:old", "drop", "use"]), 5 if quick else 7)):
+    for cp, d in ((dict(base=65534), 6 if quick else 8), (dict(base=300, alphabet=["sub", "timer", "notify", "bcast:old", "drop", "use"]), 5 if quick else 7),
+                  (dict(base=300, alphabet=c18_conn.ALPH_POLL), 8 if quick else 9)):
         cp = dict(cp, seed=ctx.seed)
         cw += [(cp, r, d) for r in _ex.roots(lambda: c18_conn.ConnH(cp), 2)]
     ctx.pmap(_conn, cw)
